@@ -276,6 +276,16 @@ def _stats_samples(src):
                     yield (p["t"], p["st"]["links"])
 
 
+def same_trace(src, dst):
+    """the recording itself, for a further specification that reads other fields of the same lines"""
+    n = 0
+    with open(src) as f, open(dst, "w") as out:
+        for line in f:
+            out.write(line)
+            n += 1
+    return n
+
+
 def loop_to_linkcc(src, dst):
     """one Tick line per uplink per published stats snapshot (Trace_LinkCc): the loop ticks every link's
     controller once per housekeeping pass and publishes the snapshots in the same pass"""
